@@ -130,8 +130,11 @@ def redirect_server_thread(sock, rec):
             pass
 
 
-def run_case(c, cert, spelling="lower", via="direct", short=False, prior_tunnel=False):
-    """short: the URL names the single-label host "good" and the resolver reports the canonical name "good.test" - the
+def run_case(c, cert, spelling="lower", via="direct", short=False, prior_tunnel=False, relaxed_before=False, app_ip=False):
+    """relaxed_before: the option dict was first used (by another object) with cert_reqs=CERT_NONE, then the caller set the options
+    of this case on the same dict.  app_ip: through WebSocketApp.run_forever with an IP literal in the URL and the host= option
+    (Host header) naming the certificate's host: the peer is still checked against the URL.
+    short: the URL names the single-label host "good" and the resolver reports the canonical name "good.test" - the
     certificate (for good.test) does not name the URL's host.  prior_tunnel: the earlier connection of the same object /
     option dict went through the proxy."""
     import websocket
@@ -206,6 +209,12 @@ def run_case(c, cert, spelling="lower", via="direct", short=False, prior_tunnel=
     outcome = "other"
     exc = ""
     vm, ch = -1, False
+    if relaxed_before:
+        d0 = {"cert_reqs": ssl.CERT_NONE}
+        websocket.WebSocket(sslopt=d0)           # an earlier object built with the same dict while verification was switched off
+        d0.pop("cert_reqs")
+        d0.update(sslopt)                          # the caller now sets what this case asks for (nothing else is in the dict as far as they know)
+        sslopt = d0
     ws = websocket.WebSocket(sslopt=sslopt)
     try:
         kw = {}
@@ -222,12 +231,22 @@ def run_case(c, cert, spelling="lower", via="direct", short=False, prior_tunnel=
             made[:] = [1]
         try:
             sch = c["scheme"] if spelling == "lower" else c["scheme"].upper() if spelling == "upper" else c["scheme"].capitalize()
-            if via == "redirect":
+            if app_ip:
+                opened, errs = [], []
+                app = websocket.WebSocketApp("wss://10.0.0.1/tls", on_open=lambda a: (opened.append(1), a.close()),
+                                             on_error=lambda a, e: errs.append(e))
+                app.run_forever(sslopt=sslopt, host="good.test")
+                if errs and not opened:
+                    raise errs[0]
+                outcome = "established"
+            elif via == "redirect":
                 ws.connect("ws://good.test:443/first")
             else:
                 ws.connect("%s://%s/tls" % (sch, "good" if short else "good.test"), **kw)
             outcome = "established" if c["scheme"] == "wss" else "plain"
-            if isinstance(ws.sock, ssl.SSLSocket):
+            if app_ip:
+                pass
+            elif isinstance(ws.sock, ssl.SSLSocket):
                 vm = int(ws.sock.context.verify_mode)
                 ch = bool(ws.sock.context.check_hostname)
             elif c["scheme"] == "wss":
@@ -261,6 +280,10 @@ def run_case(c, cert, spelling="lower", via="direct", short=False, prior_tunnel=
     for t_ in threads:
         t_.join(6)
     sni = rec.get("sni", "")
+    if app_ip:
+        # no certificate of the test PKI names the IP address of the URL; the Host header option is not a TLS option
+        cert = dict(cert, name="other")
+        sni = {"good.test": "other.test"}.get(sni, sni)
     if short:
         # the certificate for good.test is not a certificate for "good"; SNI must be the URL's host
         cert = dict(cert, name="other")
@@ -342,6 +365,12 @@ def main(ctx):
     # a single-label URL host whose canonical name (as the resolver reports it) is the name in the certificate
     for c, cert in [x for x in wss if x[0]["serverName"] == "absent" and x[1]["name"] == "good"][:16 if ctx.tier == "quick" else 200]:
         ev.append(run_case(c, cert, short=True))
+    # the option dict had been used with verification switched off before the caller set these options on it
+    for c, cert in [x for x in wss if x[0]["context"] == "absent" and x[0]["certReqs"] != "none"][:20 if ctx.tier == "quick" else 300]:
+        ev.append(run_case(c, cert, relaxed_before=True))
+    # WebSocketApp, IP literal in the URL, Host header option naming the certificate's host
+    for c, cert in [x for x in wss if not x[0]["tunnel"] and x[0]["serverName"] == "absent" and x[1]["name"] == "good"][:12 if ctx.tier == "quick" else 150]:
+        ev.append(run_case(c, cert, app_ip=True))
     # the earlier connection of the same object / option dict went through the proxy
     pr = [(c, cert) for c, cert in cs if c["scheme"] == "wss" and c["prior"]]
     rng.shuffle(pr)
